@@ -341,24 +341,29 @@ outer:
 	for {
 		select {
 		case ch := <-n.chNewChannel:
+			verifPoint("loop.new", ch)
 			n.channels[ch] = struct{}{}
 			ch.start()
 
 		case ch := <-n.chCloseChannel:
+			verifPoint("loop.close", ch)
 			delete(n.channels, ch)
 
 		case req := <-n.chWriteTo:
+			verifPoint("loop.writeTo", req.ch)
 			if _, ok := n.channels[req.ch]; !ok {
 				continue
 			}
 			req.ch.write(req.what)
 
 		case what := <-n.chWriteAll:
+			verifPoint("loop.writeAll", nil)
 			for ch := range n.channels {
 				ch.write(what)
 			}
 
 		case req := <-n.chWriteExcept:
+			verifPoint("loop.writeExcept", req.except)
 			for ch := range n.channels {
 				if ch != req.except {
 					ch.write(req.what)
@@ -366,6 +371,7 @@ outer:
 			}
 
 		case <-n.terminate:
+			verifPoint("loop.terminate", nil)
 			break outer
 		}
 	}
@@ -386,8 +392,10 @@ outer:
 		ch.close()
 	}
 
+	verifPoint("loop.beforeWait", nil)
 	n.wg.Wait()
 
+	verifPoint("loop.beforeCloseEvents", nil)
 	close(n.chEvent)
 }
 
@@ -487,6 +495,7 @@ func (n *Node) WriteMessageTo(channel *Channel, m message.Message) error {
 		return err
 	}
 
+	verifPoint("api.write", nil)
 	select {
 	case n.chWriteTo <- writeToReq{channel, m}:
 	case <-n.terminate:
@@ -502,6 +511,7 @@ func (n *Node) WriteMessageAll(m message.Message) error {
 		return err
 	}
 
+	verifPoint("api.write", nil)
 	select {
 	case n.chWriteAll <- m:
 	case <-n.terminate:
@@ -517,6 +527,7 @@ func (n *Node) WriteMessageExcept(exceptChannel *Channel, m message.Message) err
 		return err
 	}
 
+	verifPoint("api.write", nil)
 	select {
 	case n.chWriteExcept <- writeExceptReq{exceptChannel, m}:
 	case <-n.terminate:
@@ -534,6 +545,7 @@ func (n *Node) WriteFrameTo(channel *Channel, fr frame.Frame) error {
 		return err
 	}
 
+	verifPoint("api.write", nil)
 	select {
 	case n.chWriteTo <- writeToReq{channel, fr}:
 	case <-n.terminate:
@@ -551,6 +563,7 @@ func (n *Node) WriteFrameAll(fr frame.Frame) error {
 		return err
 	}
 
+	verifPoint("api.write", nil)
 	select {
 	case n.chWriteAll <- fr:
 	case <-n.terminate:
@@ -568,6 +581,7 @@ func (n *Node) WriteFrameExcept(exceptChannel *Channel, fr frame.Frame) error {
 		return err
 	}
 
+	verifPoint("api.write", nil)
 	select {
 	case n.chWriteExcept <- writeExceptReq{exceptChannel, fr}:
 	case <-n.terminate:
@@ -577,6 +591,7 @@ func (n *Node) WriteFrameExcept(exceptChannel *Channel, fr frame.Frame) error {
 }
 
 func (n *Node) pushEvent(evt Event) {
+	verifPoint("node.pushEvent", nil)
 	select {
 	case n.chEvent <- evt:
 	case <-n.terminate:
@@ -584,6 +599,7 @@ func (n *Node) pushEvent(evt Event) {
 }
 
 func (n *Node) newChannel(ch *Channel) {
+	verifPoint("node.newChannel", ch)
 	select {
 	case n.chNewChannel <- ch:
 	case <-n.terminate:
@@ -592,6 +608,7 @@ func (n *Node) newChannel(ch *Channel) {
 }
 
 func (n *Node) closeChannel(ch *Channel) {
+	verifPoint("node.closeChannel", ch)
 	select {
 	case n.chCloseChannel <- ch:
 	case <-n.terminate:
